@@ -27,6 +27,13 @@ for pid in sorted(PROPS):
         "technique": c["technique"],
     })
 
+claimed = set(PROPS)
+na = list(NOT_APPLICABLE)
+for line in open(os.path.join(ROOT, "properties.jsonl")):
+    pid = json.loads(line)["id"]
+    if pid not in claimed and not any(x["property_id"] == pid for x in na):
+        na.append({"property_id": pid, "reason": "check not built yet at this commit (work in progress, see DESIGN.md §7); nothing is claimed for it"})
+
 m = {
     "version": 1,
     "setup_cmd": "./tools/setup.sh",
@@ -44,7 +51,7 @@ m = {
         "kind_free_text": "property-based testing (pgregory.net/rapid v1.3.0: random and stateful generation, shrinking), bounded exhaustive enumerators, native go fuzzing in thorough tiers; explicit oracles (reference models, round trips, differential / metamorphic relations, history invariants)",
     }],
     "checks": checks,
-    "not_applicable": NOT_APPLICABLE,
+    "not_applicable": na,
     "notes": "Driver: tools/check.py; per-property packages under props/; known findings in known-findings.txt; saved shrunk failures replayed first from regress/<ID>/. Exit 2 = inconclusive (never a VIOLATION).",
 }
 with open(os.path.join(ROOT, "MANIFEST.json"), "w") as f:
